@@ -723,10 +723,13 @@ theorem handleRequest_puts (c : Core) (env : Env) (src : Addr) (ro : Bool) (vers
       · split <;> rfl
       · rfl
     · rfl
-  unfold handleRequest serveRequest
+  unfold handleRequest
   split
-  · exact (h2 _).trans h1
-  · exact (h2 _).trans h1
+  · rfl
+  · unfold serveRequest
+    split
+    · exact (h2 _).trans h1
+    · exact (h2 _).trans h1
 
 theorem sendReply_adv (a : Actor) (src : Addr) (tid : UInt32) (r : Option Reply) (now : Nat) :
     Adv now a (a.sendReply src tid r) := by
